@@ -6,7 +6,7 @@
    NOT YET PROVED: EJoin, EPart, EKick, EQuit, ENick (the membership bookkeeping); for those the
    exactness of the view is checked dynamically ([exact_dom] in the oracle of ./check C13). *)
 From Verif Require Import TrackerSpec TrackerSpecFacts StateHandlers Net NetObs NetProofs NetHandlers NetSim NetModes NetSimEv.
-From Verif Require GoBytes LineLib Line LineSend.
+From Verif Require GoBytes LineLib Line LineSend NetDec.
 Open Scope Z_scope.
 
 Lemma sp_inv_same_keys t t' : same_keys t t' -> sp_inv t -> sp_inv t'.
@@ -103,7 +103,8 @@ Proof.
     destruct x as [|p]; [done|]. do 7 (destruct p as [p|p|]; try done); inversion E; subst; split; done.
   - destruct Hf as [Hk Hl]. split; [|done]. simpl in *. destruct add; [by right|by left].
   - destruct Hf as [Hk Hl]. split; [done|]. simpl in *. destruct add; [|by left].
-    right. apply andb_prop in Hv. destruct Hv as [_ Hv]. by apply Z.eqb_eq.
+    right. apply andb_prop in Hv. destruct Hv as [H1 H2]. apply Z.ltb_lt in H1. apply Z.leb_le in H2.
+    apply NetDec.atoi_dec_of_Z. unfold max_limit in H2. lia.
   - destruct (snd st !! (c, n)); [|done]. by destruct (priv_char x add p).
   - done.
 Qed.
@@ -118,9 +119,10 @@ Qed.
 (* ---------- the initial state ---------- *)
 Lemma wf_net0 me ui attr :
   nick_ok me = true -> LineSend.name_ok (ui_user ui) = true -> LineSend.name_ok (ui_host ui) = true ->
-  text_ok (ui_real ui) = true -> wf_net (net0 me ui attr).
+  text_ok (ui_real ui) = true -> LineSend.middle_ok (ui_user ui) = true -> LineSend.middle_ok (ui_host ui) = true ->
+  wf_net (net0 me ui attr).
 Proof.
-  intros H1 H2 H3 H4. split; simpl.
+  intros H1 H2 H3 H4 H5 H6. split; simpl.
   - apply rob_inv_sp_inv. apply rob_inv_view0.
   - unfold n_me. simpl. rewrite lookup_singleton; eauto.
   - intros c n [p Hp]. simpl in Hp. by rewrite lookup_empty in Hp.
@@ -142,7 +144,7 @@ Proof. intros W Hv. unfold step. by rewrite Hv. Qed.
 Lemma wf_step_connect nt n u h r : wf_net nt -> wf_net (step nt (EConnect n u h r)).
 Proof.
   intros W. unfold step. destruct (ev_valid nt (EConnect n u h r)) eqn:Hv; cbn [negb]; [|done].
-  cbn [ev_valid] in Hv. do 4 (apply andb_prop in Hv; destruct Hv as [Hv ?]).
+  cbn [ev_valid] in Hv. do 6 (apply andb_prop in Hv; destruct Hv as [Hv ?]).
   match goal with H : bool_decide _ = true |- _ => apply bool_decide_eq_true in H; rename H into Hnew end.
   split; simpl.
   - apply W.
@@ -193,6 +195,8 @@ Lemma wf_step_replies nt c n :
   wf_net nt -> wf_net (step nt (EReplyMode c)) /\ wf_net (step nt (EReplyWhoChan c)) /\ wf_net (step nt (EReplyWhoNick n)).
 Proof.
   intros W. unfold step. cbn [ev_valid negb]. split; [|split].
+  2: destruct (chan_ok c); cbn [negb]; [|done].
+  3: destruct (nick_ok n); cbn [negb]; [|done].
   - destruct (n_chans nt !! c) as [ca|]; [|done].
     apply (wf_same nt); simpl; [done|done|done| |done|apply v_modes_keys].
     intros c' a' Ha' _. destruct (wf_chans nt W c' a' Ha') as (_ & ? & ? & ?). done.
@@ -235,10 +239,11 @@ Qed.
 
 (* what the replies reveal is the truth *)
 Lemma who_reveals nt n ui a :
+  nick_ok n = true ->
   n_users nt !! n = Some ui -> ts_nicks (n_view nt) !! n = Some a -> n <> n_me nt ->
   exists a', ts_nicks (n_view (step nt (EReplyWhoNick n))) !! n = Some a'
              /\ na_ident a' = ui_user ui /\ na_host a' = ui_host ui /\ na_name a' = ui_real ui.
 Proof.
-  intros Hu Ha Hme. unfold step. cbn [ev_valid negb]. rewrite Hu. cbn [n_view set_view].
+  intros Hok Hu Ha Hme. unfold step. cbn [ev_valid]. rewrite Hok. cbn [negb]. rewrite Hu. cbn [n_view set_view].
   unfold v_reveal_who. rewrite decide_False by done. rewrite Ha. cbn. rewrite lookup_insert. eauto.
 Qed.
